@@ -41,18 +41,22 @@ def cases(draw, tier):
         k, which = 1, draw(st.sampled_from(["LM", "omitted"]))
         fn = draw(st.sampled_from(["eig", "eigmax"]))
     return {"kind": kind, "n": n, "alg": alg, "k": k, "which": which, "fn": fn, "seed": draw(st.integers(0, 10**6)),
-            "cplx": draw(st.booleans()), "cap": draw(st.sampled_from(["n", "n", "n+3"])), "declare": draw(st.booleans())}
+            "cplx": draw(st.booleans()), "cap": draw(st.sampled_from(["n", "n", "n+3"])), "declare": draw(st.booleans()),
+            # Krylov tolerance (0 = never stop early) and an eigenvalue that is exactly zero or 1e-9 of the others
+            "ktol0": draw(st.integers(1, 4)) == 1, "tiny": draw(st.sampled_from([None, None, None, 0.0, 1e-9]))}
 
 
 def strategy(tier):
     return cases(tier)
 
 
-def spectrum(n, rng, signed):
+def spectrum(n, rng, signed, tiny=None):
     mags = 0.7 * 1.25 ** (np.arange(n) + rng.random(n) * 0.3)
     rng.shuffle(mags)
     if signed:
         mags = mags * np.where(rng.random(n) < 0.5, -1, 1)
+    if tiny is not None and n >= 2:
+        mags[int(rng.integers(0, n))] = tiny  # still simple and well separated: one eigenvalue at (or next to) zero
     return mags
 
 
@@ -63,7 +67,7 @@ def build(case):
     rng = np.random.default_rng(seed)
     condx = 1.0
     if kind in ("herm_def", "herm_indef"):
-        lam = spectrum(n, rng, kind == "herm_indef")
+        lam = spectrum(n, rng, kind == "herm_indef", case.get("tiny"))
         M, Q = KR.hermitian(lam, seed, case["cplx"])
         A = ops.Dense(M)
         if case["declare"] or case["alg"] in ("Eigh", "Lanczos"):
@@ -87,12 +91,12 @@ def build(case):
         condx = float(np.linalg.cond(X))
         A = ops.Dense(M)
     elif kind == "complex":
-        lam = spectrum(n, rng, False) * np.exp(1j * rng.uniform(-np.pi, np.pi, n))
+        lam = spectrum(n, rng, False, case.get("tiny")) * np.exp(1j * rng.uniform(-np.pi, np.pi, n))
         M, X = KR.nonnormal(lam, seed, True, cond_x=4.0)
         condx = float(np.linalg.cond(X))
         A = ops.Dense(M)
     elif kind == "diag":
-        d = spectrum(n, rng, True)
+        d = spectrum(n, rng, True, case.get("tiny"))
         M = np.diag(d)
         A = ops.Diagonal(d.copy())
     elif kind in ("tri_lower", "tri_upper"):
@@ -117,8 +121,9 @@ def make_alg(case, n):
     import cola
     L = cola.linalg
     cap = n if case["cap"] == "n" else n + 3
-    return {"omitted": None, "Auto": L.Auto(), "Eig": L.Eig(), "Eigh": L.Eigh(), "Lanczos": L.Lanczos(max_iters=cap, tol=1e-12),
-            "Arnoldi": L.Arnoldi(max_iters=cap, tol=1e-12), "PowerIteration": L.PowerIteration(tol=1e-12, max_iter=3000)}[case["alg"]]
+    kt = 0.0 if case.get("ktol0") else 1e-12
+    return {"omitted": None, "Auto": L.Auto(), "Eig": L.Eig(), "Eigh": L.Eigh(), "Lanczos": L.Lanczos(max_iters=cap, tol=kt),
+            "Arnoldi": L.Arnoldi(max_iters=cap, tol=kt), "PowerIteration": L.PowerIteration(tol=1e-12, max_iter=3000)}[case["alg"]]
 
 
 def select_ok(vals, w, which, tol):
